@@ -72,6 +72,7 @@ type SharedMultiColReaders struct {
 	numReaders      int
 	numOpenFDs      int64
 	columnErrorMap  map[string]error // column name -> error; Track errors while reading the column files for the shared readers
+	closed          bool             // Close() already ran; a second call must not release the FD limiter again
 }
 
 /*
@@ -266,6 +267,13 @@ func InitSharedMultiColumnReaders(segKey string, colNames map[string]bool,
 
 // Returns all buffers to the pools, closes all FDs shared across multi readers, and updates global semaphore
 func (scr *SharedMultiColReaders) Close() {
+	// InitSharedMultiColumnReaders closes the readers itself when it fails and still returns them;
+	// its callers close them again (deferred). Releasing the FD limiter twice panics.
+	if scr.closed {
+		return
+	}
+	scr.closed = true
+
 	for _, multiReader := range scr.MultiColReaders {
 		if multiReader != nil {
 			multiReader.returnBuffers()
